@@ -268,6 +268,11 @@ func suiteC05Inline(env *Env, res *Result) {
 			kind += "+dotted-name"
 		}
 		tree := Tree{"regex-assembly/include/": "", "regex-assembly/exclude/": "", "regex-assembly/" + dir + "/" + base + ".ra": ftext}
+		if dir == "include" && r.Chance(1, 3) {
+			// a file of the same name in exclude/ : the include directory is searched first and wins
+			tree["regex-assembly/exclude/"+base+".ra"] = r.Pick([]string{"shadow\ndecoy\n", "##!^ wrong\nshadow\n", "\n"})
+			kind += "+same-name-in-exclude"
+		}
 		ref := base
 		if r.Chance(1, 3) {
 			ref = base + ".ra"
@@ -420,11 +425,20 @@ func suiteC06Except(env *Env, res *Result) {
 				flines = append(flines, flines[0], "theta")
 			}
 		}
+		// one case in six: two exclude files define the same name differently and both use it; the
+		// definitions map is shared, the first exclude file LISTED defines the name for all
+		conflict := !withDef && r.Chance(1, 6)
+		if conflict {
+			flines = append(flines, "lsa", "lsb", "lsc")
+		}
 		ftext := strings.Join(flines, "\n") + "\n"
 		tree := Tree{"regex-assembly/include/": "", "regex-assembly/exclude/": "", "regex-assembly/include/f.ra": ftext}
 		nx := r.Range(0, 3)
 		if wantTwo && nx == 0 {
 			nx = 1
+		}
+		if conflict {
+			nx = r.Range(2, 4)
 		}
 		var xnames []string
 		var xentries [][]string
@@ -447,6 +461,9 @@ func suiteC06Except(env *Env, res *Result) {
 			if wantTwo && k == 0 {
 				xl = append(xl, "x{{d}}")
 			}
+			if conflict {
+				xl = append([]string{"##!> define e " + string(rune('a'+k%3))}, append(xl, "ls{{e}}")...)
+			}
 			name := fmt.Sprintf("x%d", k)
 			dir := r.Pick([]string{"exclude", "exclude", "include"})
 			tree["regex-assembly/"+dir+"/"+name+".ra"] = strings.Join(xl, "\n") + "\n"
@@ -461,9 +478,15 @@ func suiteC06Except(env *Env, res *Result) {
 				fdefs[f[2]] = f[3]
 			}
 		}
+		if conflict {
+			fdefs["e"] = "a"
+		}
 		excluded := map[string]bool{}
 		for _, xl := range xentries {
 			for _, e := range xl {
+				if strings.HasPrefix(e, "##!> define ") {
+					continue
+				}
 				excluded[substDefs(e, fdefs)] = true
 			}
 		}
@@ -675,10 +698,10 @@ func suiteC07Defs(env *Env, res *Result) {
 			}
 		}
 		if r.Chance(1, 4) || onlyAffixes {
-			body = append([]string{"##!^ pre{{" + names[0] + "}}"}, body...)
+			body = append([]string{"##!^ " + r.Pick([]string{"pre", "", ""}) + "{{" + names[0] + "}}"}, body...)
 		}
 		if r.Chance(1, 4) || (onlyAffixes && r.Chance(1, 2)) {
-			body = append([]string{"##!$ {{" + names[0] + "}}post"}, body...)
+			body = append([]string{"##!$ {{" + names[0] + "}}" + r.Pick([]string{"post", "", ""})}, body...)
 		}
 		// fully expanded values
 		full := map[string]string{}
